@@ -382,6 +382,9 @@ pub enum HwKind {
     SetBits,
     /// EventRegister::clear_condition_bits(value)
     ClearBits,
+    /// the device firmware writes the public `enable` field itself (power-on default, service
+    /// mode): not a condition change, but it decides which conditions are summarised
+    Enable,
 }
 
 fn hw_is_set(k: &HwKind) -> bool {
@@ -403,6 +406,7 @@ impl HwOp {
             HwKind::Set => self.value,
             HwKind::SetBits => current | self.value,
             HwKind::ClearBits => current & !self.value,
+            HwKind::Enable => current,
         }
     }
 }
